@@ -1,3 +1,36 @@
 package main
 
-func extraCmd2(name string, args []string) bool { return false }
+import (
+	"flag"
+	"fmt"
+	"os"
+	"strings"
+
+	"github.com/goplus/llgo/zz_verif_symx/llfe"
+)
+
+func extraCmd2(name string, args []string) bool {
+	switch name {
+	case "ir":
+		fs := flag.NewFlagSet("ir", flag.ExitOnError)
+		dir := fs.String("dir", ".", "")
+		want := fs.String("want", "", "comma separated package paths")
+		out := fs.String("out", "", "output .ll prefix")
+		fs.Parse(args)
+		w := map[string]bool{}
+		for _, p := range strings.Split(*want, ",") {
+			w[p] = true
+		}
+		mods, err := llfe.BuildModules(*dir, []string{"."}, w, true, 0)
+		if err != nil {
+			fatal(err)
+		}
+		for p, m := range mods {
+			fn := *out + strings.ReplaceAll(p, "/", "_") + ".ll"
+			os.WriteFile(fn, []byte(m.Text), 0644)
+			fmt.Printf("%s: %d funcs, %d globals -> %s\n", p, len(m.Funcs), len(m.Globals), fn)
+		}
+		return true
+	}
+	return extraCmd3(name, args)
+}
